@@ -708,6 +708,10 @@ func (fr *Frame) execBlock(b *ssa.BasicBlock, pc *Term, st *State, addEdge func(
 	} else if fr.fn.Parent() == ex.root && ex.root != nil {
 		// a function literal of the verified function: its lines belong to it
 		points = ex.ctx.pointSpecs(ex.ctx.contractFor(ex.root))
+	} else if ic := ex.ctx.contractFor(fr.fn); ic != nil && ic.Inline {
+		// an `inline` contract carries only point assertions: they are checked
+		// wherever the function is inlined
+		points = ex.ctx.pointSpecs(ic)
 	}
 	firedHere := map[int]bool{}
 	for _, ins := range b.Instrs {
